@@ -317,6 +317,60 @@ fn ev_det_dense(c: &Case, out: &mut Out) {
     });
 }
 
+/// Classification (not a verdict) of the input of the Wiedemann determinant: is the scalar Krylov sequence the
+/// routine uses - first coordinate of M^i v, v_j = Fibonacci(j + 2) mod 65537 - of linear complexity below n
+/// modulo p?  Then no polynomial of degree n can be recovered from it and the routine returns 0 (its own
+/// "FIXME: what if degree != n").  Computed with the harness's own arithmetic (Berlekamp-Massey over GF(p)).
+fn wiedemann_deficient(m: &[Vec<i64>], p: u64) -> bool {
+    let n = m.len();
+    let mm = |a: u64, b: u64| ((a as u128 * b as u128) % p as u128) as u64;
+    let red = |x: i64| -> u64 { (((x as i128) % (p as i128) + p as i128) % p as i128) as u64 };
+    let rows: Vec<Vec<(usize, u64)>> =
+        m.iter().map(|r| r.iter().enumerate().filter(|(_, &x)| x != 0).map(|(j, &x)| (j, red(x))).collect()).collect();
+    let (mut x, mut y) = (0u64, 1u64);
+    let mut v: Vec<u64> = vec![];
+    for _ in 0..n {
+        (x, y) = (y, (x + y) % 65537);
+        v.push(y % p);
+    }
+    let mut seq = vec![];
+    for _ in 0..2 * n {
+        seq.push(v[0]);
+        let w: Vec<u64> = rows.iter().map(|r| r.iter().fold(0u64, |acc, &(j, a)| (acc + mm(a, v[j])) % p)).collect();
+        v = w;
+    }
+    // Berlekamp-Massey: linear complexity l of seq
+    let pw = |mut b: u64, mut e: u64| { let mut r = 1u64; while e > 0 { if e & 1 == 1 { r = mm(r, b); } b = mm(b, b); e >>= 1; } r };
+    let (mut c, mut b) = (vec![0u64; 2 * n + 2], vec![0u64; 2 * n + 2]);
+    c[0] = 1;
+    b[0] = 1;
+    let (mut l, mut mshift, mut bd) = (0usize, 1usize, 1u64);
+    for i in 0..seq.len() {
+        let mut d = seq[i];
+        for j in 1..=l {
+            d = (d + mm(c[j], seq[i - j])) % p;
+        }
+        if d == 0 {
+            mshift += 1;
+        } else {
+            let t = c.clone();
+            let coef = mm(d, pw(bd, p - 2));
+            for j in 0..(2 * n + 2 - mshift) {
+                c[j + mshift] = (c[j + mshift] + p - mm(coef, b[j])) % p;
+            }
+            if 2 * l <= i {
+                l = i + 1 - l;
+                b = t;
+                bd = d;
+                mshift = 1;
+            } else {
+                mshift += 1;
+            }
+        }
+    }
+    l < n
+}
+
 fn ev_det_sparse(c: &Case, rng: &mut StdRng, out: &mut Out) {
     if c.max_abs() >= (1 << 15) || norm_of(&c.m) == 0 || c.k == 0 {
         return;
@@ -343,9 +397,10 @@ fn ev_det_sparse(c: &Case, rng: &mut StdRng, out: &mut Out) {
         c.matrix_fields(&mut ev);
         let rr = rows.clone();
         let r = guard(move || SparseMat::new(rr).detp4(ps));
-        let ev = merge(ev, json!({"primes": ps.iter().map(|&p| du(p)).collect::<Vec<_>>()}));
+        let wdef = ps.iter().any(|&p| wiedemann_deficient(&c.m, p));
+        let ev = merge(ev, json!({"primes": ps.iter().map(|&p| du(p)).collect::<Vec<_>>(), "wdef": wdef}));
         out.ev(match r {
-            Ok(d) => merge(ev, json!({"res": d.iter().map(|&x| du(x)).collect::<Vec<_>>()})),
+            Ok(d) => merge(ev, json!({"res": d.iter().map(|&x| du(x)).collect::<Vec<_>>(), "zero": d.iter().any(|&x| x == 0)})),
             Err(e) => merge(ev, e),
         });
     }
@@ -354,8 +409,9 @@ fn ev_det_sparse(c: &Case, rng: &mut StdRng, out: &mut Out) {
         c.matrix_fields(&mut ev);
         let rr = rows.clone();
         let r = guard(move || SparseMat::new(rr).detz(None));
+        let ev = merge(ev, json!({"wdef": wiedemann_deficient(&c.m, (1u64 << 61) - 1)}));
         out.ev(match r {
-            Ok(d) => merge(ev, json!({"res": di(&d)})),
+            Ok(d) => merge(ev, json!({"res": di(&d), "zero": d.is_zero()})),
             Err(e) => merge(ev, e),
         });
     }
